@@ -173,6 +173,22 @@ auto __redu_mod(A a, B b) -> decltype(a + b) {
   return r;
 }
 
+// Reduino.Utils.map: the affine map through (from_low, to_low) and (from_high, to_high).
+inline float __redu_map(float value, float from_low, float from_high, float to_low, float to_high) {
+  return to_low + (value - from_low) / (from_high - from_low) * (to_high - to_low);
+}
+
+// Python's round(): to the nearest integer, ties to the even one.
+inline long __redu_round(double value) {
+  double lower = floor(value);
+  double rest = value - lower;
+  long result = static_cast<long>(lower);
+  if (rest > 0.5 || (rest == 0.5 && (result % 2) != 0)) {
+    result += 1;
+  }
+  return result;
+}
+
 template <typename A, typename B>
 auto __redu_pow(A a, B b) -> decltype(a + b) {
   typedef decltype(a + b) R;
